@@ -336,3 +336,22 @@ CHECKS["C20"] = dict(
     assumptions=["termination depends only on the number of evaluations (call-counting condition)",
                  "planners whose solve() spawns threads are out of scope of this property"],
 )
+
+CHECKS["C02"] = dict(
+    src="harness/C02_control.cpp",
+    cases=dict(quick=3000, thorough=50000),
+    rule="Case = control planner {RRT, RRT with intermediate states, SST, EST, KPIECE1, PDST, SyclopRRT, SyclopEST (grid decomposition 2..8)} x system "
+         "{first-order point, unicycle on SE2 with heading wrapped in the propagator, second-order point with bounded velocities, 1-control field "
+         "follower} x control bounds (asymmetric in a third of the cases) x step size 0.02..0.2 x min/max duration 1..4 / +0..16 x 0..4 obstacles x "
+         "start/goal x threshold x seed x evaluation budget 50..6000. Oracle: the harness replays every recorded control for its recorded duration "
+         "from the recorded state with its OWN copy of the dynamics: duration is a whole number (>=1, <= max) of steps, control inside the bounds, "
+         "every propagation step valid (bounds + obstacles), result within float epsilon of the next recorded state; first state is the valid start; "
+         "exact => last state satisfies the goal, approximate => flag and difference cohere; PathControl::check() agrees. Non-trivial = solution with "
+         ">= 2 controls and (a duration > 1 step or obstacles present). Distinct = consumed byte prefix.",
+    technique="property-based testing with a harness-side replay oracle (own propagator copy), fork per case",
+    level_text="Generated control systems and problems for all eight control planners; every reported path is replayed independently. "
+               "Exploration-level.",
+    level_note="Trusted: the harness dynamics (the planner's StatePropagator object is a separate instance built from the same formulas), "
+               "float epsilon as replay tolerance (the constant PathControl::check uses).",
+    assumptions=["validity = inside the state-space bounds and outside the obstacles"],
+)
